@@ -19,6 +19,19 @@ with concurrent.futures.ThreadPoolExecutor(8) as ex:
             m = re.match(r"^\s*(.*?)\s*:\s*OK\.?\s*$", line)
             if m:
                 ok_names.add(m.group(1).strip())
+# a binary that failed under the parallel run is re-run once on its own (the suite contains timing/randomised tests)
+retry = [b for b, rc in bad if b != "testica"]
+bad = [x for x in bad if x[0] == "testica"]
+for b in retry:
+    b_, rc, out = run(b)
+    if rc != 0:
+        bad.append((b, rc))
+    else:
+        print("note: %s failed in the parallel run and passed when re-run alone" % b)
+    for line in out.splitlines():
+        m = re.match(r"^\s*(.*?)\s*:\s*OK\.?\s*$", line)
+        if m:
+            ok_names.add(m.group(1).strip())
 base = json.load(open("/root/.vp/BASELINE.json"))["stable_pass"]
 missing = [n for n in base if n not in ok_names]
 print("test binaries: %d, non-zero exit: %s" % (len(bins), bad))
